@@ -357,6 +357,9 @@ fn run_single(c: &mut Case) -> Result<Vec<u64>, BadCase> {
         out.push(t.flags.iter().map(|f| f.wakes.load(SeqCst)).sum());
         bad |= s.wrong_thread.load(SeqCst);
         bad |= s.out_made.load(SeqCst) != s.out_taken.load(SeqCst) + s.out_dropped.load(SeqCst);
+        // every waker a handle poll installed has been dropped again: once the handles, the
+        // stored wakers and the executor are gone nobody but this table refers to a Flag
+        bad |= t.flags.iter().any(|f| Arc::strong_count(f) != 1);
     }
     out.push(bad as u64);
     out.push(0);
